@@ -105,7 +105,7 @@ def domainHandler (is16 : Bool) (fields : List String) : String :=
       let src := bs.toArray
       let mk (d : Dialect) : Cfg := { d := d, comments := m % 2 = 1, noSemis := m / 2 % 2 = 1, U := U }
       if is16 then
-        (if goLexemesOnly U src then "in " else "out ") ++
+        (if goLexemesOnly U (m % 2 = 1) (m / 2 % 2 = 1) src then "in " else "out ") ++
           (if agree16 (scan (mk .xgo) src) (scan (mk .go) src) then "agree" else "differ")
       else
         (if sharedLexemesOnly U src then "in " else "out ") ++
